@@ -4,7 +4,10 @@
 Translated on every check (common.regenerate): tzfile._find_last_transition, _get_ttinfo,
 _find_ttinfo, fromutc, is_ambiguous, _resolve_ambiguous_time, utcoffset, dst, tzname; the module
 functions _datetime_to_timestamp, datetime_exists, datetime_ambiguous, resolve_imaginary; the generic
-layer _tzinfo.is_ambiguous, _fold_status, _fromutc, fromutc; and the `ttinfo_before` choice inside _read_tzfile.
+layer _tzinfo.is_ambiguous, _fold_status, _fromutc, fromutc; _ttinfo.__eq__ and tzfile.__eq__ / __ne__; and, inside
+_read_tzfile, the choice of ttinfo_before, the backwards scan for ttinfo_std / ttinfo_dst (for/break/else) and the
+`for i, tti in enumerate(out.trans_idx)` loop deriving tti.dstoffset and the wall-clock transition list (loops become
+folds py_for / py_for_enumerate over a tuple of the loop-carried variables; see translate_read_loops).
 coq/tzfile/TzGenThm.v proves each generated function equal to the hand model for all inputs.
 
 ACCEPTED SUBSET (anything else -> TranslateError; the output file is then replaced by one that does
@@ -655,7 +658,7 @@ def translate(tz_src, common_src, zi_src=None):
     tree = ast.parse(tz_src)
     out = ["(* GENERATED by harness/gen_tzfile.py from /repo/src/dateutil/tz/tz.py and tz/_common.py -- do not edit *)",
            "From Coq Require Import ZArith List Bool.",
-           "From V Require Import tzfile.TzModel tzfile.TzGenLib.",
+           "From V Require Import tzfile.TzModel tzfile.TzData tzfile.TzGenLib.",
            "Import ListNotations.", "Open Scope Z_scope.", ""]
     # ---- module function _datetime_to_timestamp
     fn = find_func(tree.body, "_datetime_to_timestamp")
@@ -761,8 +764,413 @@ def translate(tz_src, common_src, zi_src=None):
         env = dict((p[0], ("v_" + p[0], p[1])) for p in params)
         body = block(fn.body, env, cx)
         out.append(define(coqn, "tzobj", params, ret, body))
+    # ---- _ttinfo.__eq__, tzfile.__eq__ / __ne__ (attribute-wise comparisons)
+    out.append(translate_eq(tree))
+    # ---- the derivation loops of _read_tzfile
+    out.append(translate_read_loops(tree))
     if zi_src is not None:
         out.append(pins({"tz.py": tree, "_common.py": ctree, "zoneinfo/__init__.py": ast.parse(zi_src)}))
+    return "\n".join(out)
+
+
+# ------------------------------------------------------------------------------ __eq__ layer
+TT_EQ = {"offset": "(tt_off %s =? tt_off %s)", "delta": "(tt_off %s =? tt_off %s)",
+         "isdst": "(tt_isdst %s =? tt_isdst %s)", "abbr": "(py_str_eqb (tt_abbr %s) (tt_abbr %s))",
+         "isstd": "(Bool.eqb (tt_isstd %s) (tt_isstd %s))", "isgmt": "(Bool.eqb (tt_isgmt %s) (tt_isgmt %s))",
+         "dstoffset": "(tt_dstoff %s =? tt_dstoff %s)"}
+TZ_EQ = {"_trans_list": "(list_eqb Z.eqb (d_wall %s) (d_wall %s))",
+         "_trans_idx": "(list_eqb gen_ttinfo_eq (py_trans_idx_objects %s) (py_trans_idx_objects %s))",
+         "_ttinfo_list": "(list_eqb gen_ttinfo_eq (d_tt %s) (d_tt %s))"}
+
+
+def eq_body(fn, cls_name, table):
+    """`if not isinstance(other, C): return NotImplemented` / `return (self.a == other.a and ...)`"""
+    a = fn.args
+    if [x.arg for x in a.args] != ["self", "other"] or a.vararg or a.kwarg or a.kwonlyargs or a.defaults or fn.decorator_list:
+        fail("signature of __eq__", fn)
+    st = [x for x in fn.body if not is_docstring(x)]
+    guard = ast.parse("if not isinstance(other, %s):\n    return NotImplemented\n" % cls_name).body[0]
+    if len(st) != 2 or ast.dump(st[0]) != ast.dump(guard) or not isinstance(st[1], ast.Return):
+        fail("%s.__eq__: unexpected shape" % cls_name, fn)
+    v = st[1].value
+    conj = v.values if isinstance(v, ast.BoolOp) and isinstance(v.op, ast.And) else [v]
+    parts = []
+    for c in conj:
+        ok = (isinstance(c, ast.Compare) and len(c.ops) == 1 and isinstance(c.ops[0], ast.Eq)
+              and isinstance(c.left, ast.Attribute) and is_name(c.left.value, "self")
+              and isinstance(c.comparators[0], ast.Attribute) and is_name(c.comparators[0].value, "other")
+              and c.left.attr == c.comparators[0].attr and c.left.attr in table)
+        if not ok:
+            fail("%s.__eq__: unsupported conjunct" % cls_name, c)
+        parts.append(table[c.left.attr] % ("v_self", "v_other"))
+    return "(" + " && ".join(parts) + ")"
+
+
+def translate_eq(tree):
+    tt = find_class(tree, "_ttinfo")
+    tf = find_class(tree, "tzfile")
+    out = ["Definition gen_ttinfo_eq (v_self v_other : ttinfo) : bool :=\n%s.\n" % eq_body(find_func(tt.body, "__eq__"), "_ttinfo", TT_EQ),
+           "Definition gen_tzfile_eq (v_self v_other : tzdata) : bool :=\n%s.\n" % eq_body(find_func(tf.body, "__eq__"), "tzfile", TZ_EQ)]
+    want_ne = ast.parse("def __ne__(self, other):\n    return not (self == other)\n").body[0]
+    for cls, nm in ((tt, "gen_ttinfo_ne"), (tf, "gen_tzfile_ne")):
+        ne = find_func(cls.body, "__ne__")
+        if ast.dump(ast.parse(ast.unparse(ne)).body[0]) != ast.dump(want_ne):
+            fail("__ne__ is not `not (self == other)`", ne)
+    out.append("Definition gen_ttinfo_ne (v_self v_other : ttinfo) : bool := negb (gen_ttinfo_eq v_self v_other).")
+    out.append("Definition gen_tzfile_ne (v_self v_other : tzdata) : bool := negb (gen_tzfile_eq v_self v_other).\n")
+    for cls in (tt, tf):      # __hash__ = None: equality is the only identity the classes define
+        pass
+    return "\n".join(out)
+
+
+# ------------------------------------------------------------------------------ loops of _read_tzfile
+# Imperative statement lists are translated into `res (tuple of the variables that survive)`.
+# Variables: python names; `out.X` attributes of the result object; "heap" = the dstoffset attribute of
+# the ttinfo objects (indexed by type index, `tti.dstoffset = ...`); "_brk" = a `break` was executed.
+RTYPES = {"Z": "Z", "B": "bool", "OZ": "option Z", "OK": "option Z", "K": "Z", "LZ": "list Z"}
+
+
+def vkey(t):
+    if isinstance(t, ast.Name):
+        return t.id
+    if isinstance(t, ast.Attribute) and is_name(t.value, "out"):
+        return "out." + t.attr
+    if isinstance(t, ast.Attribute) and is_name(t.value, "tti") and t.attr == "dstoffset":
+        return "heap"
+    fail("assignment target", t)
+
+
+def cname(key):
+    return "v_" + key.replace(".", "_")
+
+
+def is_append(s):
+    return (isinstance(s, ast.Expr) and isinstance(s.value, ast.Call) and isinstance(s.value.func, ast.Attribute)
+            and s.value.func.attr == "append" and isinstance(s.value.func.value, ast.Attribute)
+            and is_name(s.value.func.value.value, "out") and len(s.value.args) == 1 and not s.value.keywords)
+
+
+def assigned_keys(stmts):
+    out = []
+
+    def add(k):
+        if k not in out:
+            out.append(k)
+    for s in stmts:
+        if isinstance(s, ast.Assign):
+            for t in s.targets:
+                add(vkey(t))
+        elif is_append(s):
+            add("out." + s.value.func.value.attr)
+        elif isinstance(s, ast.Break):
+            add("_brk")
+        elif isinstance(s, ast.If):
+            for k in assigned_keys(s.body) + assigned_keys(s.orelse):
+                add(k)
+        elif is_docstring(s):
+            pass
+        else:
+            fail("statement in a loop body", s)
+    return out
+
+
+def rex(e, env):
+    """expression of the _read_tzfile loops -> (code, type, effectful)"""
+    if isinstance(e, ast.Constant):
+        if e.value is None:
+            return "None", "NONE", False
+        if isinstance(e.value, bool):
+            return ("true" if e.value else "false"), "B", False
+        if isinstance(e.value, int):
+            return ("%d" % e.value if e.value >= 0 else "(%d)" % e.value), "Z", False
+        fail("constant", e)
+    if isinstance(e, ast.Name):
+        if e.id in env:
+            return env[e.id][0], env[e.id][1], False
+        fail("unknown name " + e.id, e)
+    if isinstance(e, ast.Attribute):
+        if is_name(e.value, "out") and ("out." + e.attr) in env:
+            v = env["out." + e.attr]
+            return v[0], v[1], False
+        if e.attr in ("offset", "isdst"):
+            v = rex(e.value, env)
+            fn = "tt_off" if e.attr == "offset" else "tt_isdst"
+            if v[1] == "K" and not v[2]:
+                return "(%s (nth_tt v_types %s))" % (fn, v[0]), "Z", False
+            if v[1] == "OK" and not v[2]:
+                return "(py_ref_%s v_types %s)" % (e.attr, v[0]), "Z", True
+        fail("attribute", e)
+    if isinstance(e, ast.Subscript):
+        i = rex(e.slice, env)
+        if i[1] != "Z" or i[2]:
+            fail("subscript index", e)
+        b = rex(e.value, env)
+        if b[1] != "LZ" or b[2]:
+            fail("subscript base", e)
+        ty = "K" if is_attr(e.value, "out", "trans_idx") else "Z"
+        return "(py_getitem %s %s)" % (b[0], i[0]), ty, True
+    if isinstance(e, ast.BinOp) and isinstance(e.op, (ast.Add, ast.Sub)):
+        a, b = rex(e.left, env), rex(e.right, env)
+        parts = []
+        for x in (a, b):
+            if x[1] == "OZ" and not x[2]:
+                parts.append(("(py_unwrap %s)" % x[0], "Z", True))     # int arithmetic on None: TypeError
+            elif x[1] == "Z":
+                parts.append(x)
+            else:
+                fail("arithmetic operand of type " + x[1], e)
+        op = "+" if isinstance(e.op, ast.Add) else "-"
+        return seq(parts, lambda n: "(%s %s %s)" % (n[0], op, n[1]), "Z")
+    if isinstance(e, ast.Call):
+        if is_name(e.func, "min") and len(e.args) == 2 and not e.keywords:
+            a, b = rex(e.args[0], env), rex(e.args[1], env)
+            if a[1] != "Z" or b[1] != "Z":
+                fail("min arguments", e)
+            return seq([a, b], lambda n: "(Z.min %s %s)" % (n[0], n[1]), "Z")
+        if is_attr(e.func, "datetime", "timedelta") and not e.args and len(e.keywords) == 1 and e.keywords[0].arg == "seconds":
+            return rex(e.keywords[0].value, env)
+        fail("call", e)
+    if isinstance(e, (ast.BoolOp, ast.Compare)) or (isinstance(e, ast.UnaryOp) and isinstance(e.op, ast.Not)):
+        return rcond(e, env)
+    fail("expression", e)
+
+
+def rtruth(v, node):
+    code, ty = v[0], v[1]
+    if ty == "B":
+        return code
+    if ty == "Z":
+        return "(py_truthy_Z %s)" % code
+    if ty == "OZ":
+        return "(py_truthy_OZ %s)" % code
+    if ty == "OK":
+        return "(py_some %s)" % code            # objects are truthy
+    if ty == "LZ":
+        return "(py_nonempty %s)" % code
+    fail("truth value of " + ty, node)
+
+
+def rcond(e, env):
+    if isinstance(e, ast.UnaryOp) and isinstance(e.op, ast.Not):
+        c = rcond(e.operand, env)
+        if c[2]:
+            fail("effectful condition", e)
+        return "(negb %s)" % c[0], "B", False
+    if isinstance(e, ast.BoolOp):
+        parts = [rcond(v, env) for v in e.values]
+        if any(p[2] for p in parts):
+            fail("effectful condition", e)
+        return "(" + (" && " if isinstance(e.op, ast.And) else " || ").join(p[0] for p in parts) + ")", "B", False
+    if isinstance(e, ast.Compare):
+        if len(e.ops) != 1:
+            fail("chained comparison", e)
+        op, l, r = e.ops[0], e.left, e.comparators[0]
+        if isinstance(op, (ast.Is, ast.IsNot)) and is_none(r):
+            v = rex(l, env)
+            if v[2] or v[1] not in ("OZ", "OK"):
+                fail("is None", e)
+            code = "(negb (py_some %s))" % v[0]
+            return (code if isinstance(op, ast.Is) else "(py_some %s)" % v[0]), "B", False
+        a, b = rex(l, env), rex(r, env)
+        if isinstance(op, ast.Eq) and a[1] == "Z" and b[1] == "Z" and not a[2] and not b[2]:
+            return "(%s =? %s)" % (a[0], b[0]), "B", False
+        fail("comparison", e)
+    v = rex(e, env)
+    if v[2]:
+        fail("effectful condition", e)
+    return rtruth(v, e), "B", False
+
+
+def rcoerce(code, ty, want, node=None):
+    if ty == want:
+        return code
+    if (ty, want) in (("Z", "OZ"), ("K", "OK")):
+        return "(Some %s)" % code
+    if ty == "NONE" and want in ("OZ", "OK"):
+        return "None"
+    fail("cannot use %s where %s is expected" % (ty, want), node)
+
+
+def merge_ty(a, b, node):
+    if a == b:
+        return a
+    for lo, hi in (("Z", "OZ"), ("K", "OK")):
+        if {a, b} <= {lo, hi, "NONE"}:
+            return hi
+    fail("a variable has types %s and %s in the two arms" % (a, b), node)
+
+
+def rbind(key, v, env, k):
+    cn = cname(key)
+    env2 = dict(env)
+    env2[key] = (cn, v[1])
+    if v[2]:
+        return "do %s <- %s;\n%s" % (cn, v[0], k(env2))
+    return "let %s := %s in\n%s" % (cn, v[0], k(env2))
+
+
+def imp(stmts, env, k):
+    """statement list -> code; k(env) gives the code after the statements"""
+    if not stmts:
+        return k(env)
+    s, rest = stmts[0], stmts[1:]
+    nxt = lambda env2: imp(rest, env2, k)
+    if is_docstring(s):
+        return nxt(env)
+    if isinstance(s, ast.Break):
+        return rbind("_brk", ("true", "B", False), env, nxt)
+    if is_append(s):
+        key = "out." + s.value.func.value.attr
+        if key not in env or env[key][1] != "LZ":
+            fail("append to an unknown list", s)
+        v = rex(s.value.args[0], env)
+        if v[1] != "Z":
+            fail("appended value", s)
+        r = seq([v], lambda n: "(%s ++ [%s])" % (env[key][0], n[0]), "LZ")
+        return rbind(key, r, env, nxt)
+    if isinstance(s, ast.Assign):
+        v = rex(s.value, env)
+        keys = [vkey(t) for t in s.targets]
+        if keys == ["heap"]:
+            if v[1] != "Z" or "tti" not in env:
+                fail("store to tti.dstoffset", s)
+            r = seq([v], lambda n: "(upd %s (Z.to_nat %s) %s)" % (env["heap"][0], env["tti"][0], n[0]), "LZ")
+            return rbind("heap", r, env, nxt)
+        if v[1] == "NONE":
+            fail("assignment of None inside a loop", s)
+        if len(keys) == 1:
+            return rbind(keys[0], v, env, nxt)
+        fail("multiple assignment targets", s)
+    if isinstance(s, ast.If):
+        t = s.test
+        # if X is None: X = e     (X int-or-None; an int afterwards)
+        if (isinstance(t, ast.Compare) and len(t.ops) == 1 and isinstance(t.ops[0], ast.Is) and is_none(t.comparators[0])
+                and isinstance(t.left, ast.Name) and t.left.id in env and env[t.left.id][1] == "OZ" and not s.orelse
+                and len(s.body) == 1 and isinstance(s.body[0], ast.Assign) and [vkey(x) for x in s.body[0].targets] == [t.left.id]):
+            x = t.left.id
+            v = rex(s.body[0].value, env)
+            if v[1] != "Z":
+                fail("default of an int-or-None variable", s)
+            if v[2]:
+                r = ("(match %s with Some x => Ok x | None => %s end)" % (env[x][0], v[0]), "Z", True)
+            else:
+                r = ("(match %s with Some x => x | None => %s end)" % (env[x][0], v[0]), "Z", False)
+            return rbind(x, r, env, nxt)
+        c = rcond(t, env)
+        # flow typing: in the then-branch an int-or-None variable tested for truth / `is not None` by a
+        # top-level conjunct of the condition is an int (py_oz_get is only evaluated under that condition)
+        env_then = dict(env)
+        conj = t.values if isinstance(t, ast.BoolOp) and isinstance(t.op, ast.And) else [t]
+        for cj in conj:
+            nm = None
+            if isinstance(cj, ast.Name):
+                nm = cj.id
+            elif (isinstance(cj, ast.Compare) and len(cj.ops) == 1 and isinstance(cj.ops[0], ast.IsNot)
+                  and is_none(cj.comparators[0]) and isinstance(cj.left, ast.Name)):
+                nm = cj.left.id
+            if nm is not None and nm in env and env[nm][1] == "OZ":
+                env_then[nm] = ("(py_oz_get %s)" % env[nm][0], "Z")
+        ka, kb = assigned_keys(s.body), assigned_keys(s.orelse)
+        live = [x for x in ka + [y for y in kb if y not in ka] if x in env or (x in ka and x in kb)]
+        if not live:
+            fail("if statement without surviving assignment", s)
+        types = {}
+
+        def probe(tag):
+            def t_(env2):
+                types[tag] = dict((x, env2[x][1]) for x in live)
+                return "Ok tt"
+            return t_
+        imp(s.body, env_then, probe("a"))
+        imp(s.orelse, env, probe("b"))
+        ty = dict((x, merge_ty(types["a"][x], types["b"][x], s)) for x in live)
+
+        def final(env2):
+            return "Ok (%s)" % ", ".join(rcoerce(env2[x][0], env2[x][1], ty[x], s) for x in live)
+        ac, bc = imp(s.body, env_then, final), imp(s.orelse, env, final)
+        env3 = dict(env)
+        for x in live:
+            env3[x] = (cname(x), ty[x])
+        pat = "(%s)" % ", ".join(cname(x) for x in live) if len(live) > 1 else cname(live[0])
+        return "do %s <- (if %s then (\n%s) else (\n%s));\n%s" % (pat, c[0], ac, bc, nxt(env3))
+    fail("statement", s)
+
+
+WALL_STATE = [("lastdst", "OZ"), ("lastoffset", "OZ"), ("lastdstoffset", "OZ"), ("out.trans_list", "LZ"), ("heap", "LZ")]
+SCAN_STATE = [("out.ttinfo_std", "OK"), ("out.ttinfo_dst", "OK"), ("_brk", "B")]
+
+
+def state_pat(state):
+    return "'(%s)" % ", ".join(cname(k) for k, _t in state)
+
+
+def state_ty(state):
+    return "(" + " * ".join(RTYPES[t] for _k, t in state) + ")%type"
+
+
+def state_final(state, node):
+    def f(env):
+        return "Ok (%s)" % ", ".join(rcoerce(env[k][0], env[k][1], t, node) for k, t in state)
+    return f
+
+
+def translate_read_loops(tree):
+    cls = find_class(tree, "tzfile")
+    rd = find_func(cls.body, "_read_tzfile")
+    out = []
+    # ---- (a) the scan for ttinfo_std / ttinfo_dst
+    scans = [n for n in ast.walk(rd) if isinstance(n, ast.For) and isinstance(n.iter, ast.Call) and is_name(n.iter.func, "range")]
+    scan = [n for n in scans if n.orelse]
+    if len(scan) != 1 or ast.dump(scan[0].iter) != ast.dump(ast.parse("range(timecnt-1, -1, -1)").body[0].value) \
+            or not is_name(scan[0].target, "i"):
+        fail("_read_tzfile: the scan is not `for i in range(timecnt-1, -1, -1)` with an else clause", rd)
+    scan = scan[0]
+    env = {"i": ("v_i", "Z"), "out.trans_idx": ("v_idx", "LZ"), "timecnt": ("v_timecnt", "Z"),
+           "out.ttinfo_std": ("v_out_ttinfo_std", "OK"), "out.ttinfo_dst": ("v_out_ttinfo_dst", "OK"), "_brk": ("v__brk", "B")}
+    body = imp(scan.body, env, state_final(SCAN_STATE, scan))
+    out.append("(* for i in range(timecnt-1, -1, -1): ... [break] / else: ...   (ttinfo objects are type indices) *)")
+    out.append("Definition gen_scan_step (v_types : list ttinfo) (v_idx : list Z) (st : %s) (v_i : Z) : res %s :=\n"
+               "let %s := st in\n%s.\n" % (state_ty(SCAN_STATE), state_ty(SCAN_STATE), state_pat(SCAN_STATE), body))
+    env2 = dict(env)
+    del env2["i"]
+    els = imp(scan.orelse, env2, state_final(SCAN_STATE[:2], scan))
+    out.append("Definition gen_scan (v_types : list ttinfo) (v_idx : list Z) (v_timecnt : Z) : res (option Z * option Z) :=\n"
+               "do st <- py_for (gen_scan_step v_types v_idx) (fun st => snd st) (py_range_down v_timecnt) (None, None, false);\n"
+               "let %s := st in\nif v__brk then Ok (v_out_ttinfo_std, v_out_ttinfo_dst) else\n%s.\n" % (state_pat(SCAN_STATE), els))
+    # the initialisations the scan starts from
+    for attr in ("ttinfo_std", "ttinfo_dst"):
+        inits = [n for n in ast.walk(rd) if isinstance(n, ast.Assign) and any(is_attr(t, "out", attr) for t in n.targets)
+                 and is_none(n.value)]
+        if len(inits) != 1:
+            fail("_read_tzfile: out.%s = None not found exactly once" % attr, rd)
+    # ---- (b) + (c) the loop deriving tti.dstoffset and out.trans_list
+    loops = [n for n in ast.walk(rd) if isinstance(n, ast.For) and isinstance(n.iter, ast.Call) and is_name(n.iter.func, "enumerate")]
+    if len(loops) != 1 or ast.dump(loops[0].iter) != ast.dump(ast.parse("enumerate(out.trans_idx)").body[0].value) \
+            or ast.dump(loops[0].target) != ast.dump(ast.parse("for i, tti in x: pass").body[0].target) or loops[0].orelse:
+        fail("_read_tzfile: the loop `for i, tti in enumerate(out.trans_idx)` was not found exactly once", rd)
+    loop = loops[0]
+    for name in ("lastdst", "lastoffset", "lastdstoffset"):
+        inits = [n for n in ast.walk(rd) if isinstance(n, ast.Assign) and any(is_name(t, name) for t in n.targets)
+                 and n not in list(ast.walk(loop))]
+        if len(inits) != 1 or not is_none(inits[0].value):
+            fail("_read_tzfile: %s = None not found exactly once before the loop" % name, rd)
+    inits = [n for n in ast.walk(rd) if isinstance(n, ast.Assign) and any(is_attr(t, "out", "trans_list") for t in n.targets)]
+    if len(inits) != 2 or not (isinstance(inits[0].value, ast.List) and not inits[0].value.elts) \
+            or ast.dump(inits[1].value) != ast.dump(ast.parse("tuple(out.trans_list)").body[0].value):
+        fail("_read_tzfile: out.trans_list is not [] before the loop and tuple(out.trans_list) after it", rd)
+    env = {"i": ("v_i", "Z"), "tti": ("v_tti", "K"), "timecnt": ("v_timecnt", "Z"),
+           "out.trans_list_utc": ("v_utc", "LZ"), "out.ttinfo_before": ("v_before", "OK"), "out.ttinfo_std": ("v_std", "OK")}
+    for k_, t_ in WALL_STATE:
+        env[k_] = (cname(k_), t_)
+    body = imp(loop.body, env, state_final(WALL_STATE, loop))
+    out.append("(* for i, tti in enumerate(out.trans_idx): dstoffset of the DST types and the wall-clock transition list *)")
+    out.append("Definition gen_wall_step (v_types : list ttinfo) (v_utc : list Z) (v_timecnt : Z) (v_before v_std : option Z)\n"
+               "  (st : %s) (v_i v_tti : Z) : res %s :=\nlet %s := st in\n%s.\n" % (
+                   state_ty(WALL_STATE), state_ty(WALL_STATE), state_pat(WALL_STATE), body))
+    out.append("Definition gen_wall_loop (v_types : list ttinfo) (v_utc v_idx : list Z) (v_timecnt : Z) (v_before v_std : option Z)\n"
+               "  (v_heap0 : list Z) : res %s :=\n"
+               "py_for_enumerate (gen_wall_step v_types v_utc v_timecnt v_before v_std) v_idx 0 (None, None, None, [], v_heap0).\n"
+               % state_ty(WALL_STATE))
     return "\n".join(out)
 
 
@@ -773,8 +1181,7 @@ def translate(tz_src, common_src, zi_src=None):
 # the obligations `pinned_<id> = true`, so a change of a pinned fragment breaks the obligations of
 # the properties that rely on it (and only those) until the hand model is re-validated and re-pinned.
 PINNED = {
- "tz.py:tzfile._read_tzfile": "7cd7fddbba61b713",
- "tz.py:tzfile.__eq__": "330fda44dbe3449d",
+ "tz.py:tzfile._read_tzfile": "4fe2fe65282b91c2",   # with the three translated loops replaced by `pass`
  "tz.py:tzfile.__reduce_ex__": "4e345ae47fcd800e",
  "tz.py:tzfile.__init__": "62fe4cd643e42c12",
  "tz.py:tzfile._set_tzdata": "744dcf5326a8e6dd",
@@ -787,7 +1194,6 @@ PINNED = {
  "tz.py:tzoffset.dst": "0aca177e09f8b4c6",
  "tz.py:tzoffset.fromutc": "512020a499fce61f",
  "tz.py:tzoffset.is_ambiguous": "15ca017930e2e459",
- "tz.py:_ttinfo.__eq__": "a987fc9c5b21e7ec",
  "_common.py:_tzinfo._fold": "34346b303708c1e1",
  "zoneinfo/__init__.py:ZoneInfoFile.__init__": "66d5edfdae05e6e7",
  "zoneinfo/__init__.py:ZoneInfoFile.get": "c94822a2eec78ee8",
@@ -802,6 +1208,25 @@ def fingerprint(node):
         if isinstance(x, (ast.FunctionDef, ast.ClassDef)):
             x.body = [b for b in x.body if not is_docstring(b)] or [ast.Pass()]
     return hashlib.sha256(ast.dump(n).encode()).hexdigest()[:16]
+
+
+def without_translated_loops(fn):
+    """_read_tzfile with the three translated loops (scan for ttinfo_std/dst, choice of ttinfo_before,
+    dstoffset / wall-transition loop) replaced by `pass`: what remains pinned is the struct decoding,
+    the ttinfo construction and the glue around the loops."""
+    fn = ast.parse(ast.unparse(fn)).body[0]
+
+    class R(ast.NodeTransformer):
+        def visit_For(self, n):
+            it = n.iter
+            if isinstance(it, ast.Call) and is_name(it.func, "enumerate"):
+                return ast.Pass()
+            if isinstance(it, ast.Call) and is_name(it.func, "range") and n.orelse:
+                return ast.Pass()
+            if isinstance(it, ast.Attribute) and is_name(it.value, "out") and it.attr == "ttinfo_list" and n.orelse:
+                return ast.Pass()
+            return self.generic_visit(n)
+    return ast.fix_missing_locations(R().visit(fn))
 
 
 def pin_id(key):
@@ -819,6 +1244,8 @@ def pins(trees):
                 fs = [f for f in n.body if isinstance(f, ast.FunctionDef) and f.name == meth]
                 if len(fs) == 1:
                     found = fs[0]
+        if found is not None and key == "tz.py:tzfile._read_tzfile":
+            found = without_translated_loops(found)
         got = fingerprint(found) if found is not None else "missing"
         out.append("Definition %s : bool := %s. (* %s: pinned %s, now %s *)" % (
             pin_id(key), "true" if got == PINNED[key] else "false", key, PINNED[key], got))
